@@ -23,31 +23,36 @@ YIELD_PREFIXES = ('_AdbIOManager', '_AdbIOManagerAsync', '_AdbPacketStore', 'Adb
 
 
 class Rewriter(ast.NodeTransformer):
-    def __init__(self, yields=False):
+    def __init__(self, yields=False, values=True):
         self.stack = []
         self.yields = yields
+        self.values = values
 
     # --- value rewrites
     def visit_Dict(self, node):
         self.generic_visit(node)
-        if any(k is None for k in node.keys):
+        if not self.values or any(k is None for k in node.keys):
             return node
         pairs = ast.List(elts=[ast.Tuple(elts=[k, v], ctx=ast.Load()) for k, v in zip(node.keys, node.values)], ctx=ast.Load())
         return ast.copy_location(ast.Call(func=ast.Name(id='__sx_dict__', ctx=ast.Load()), args=[pairs], keywords=[]), node)
 
     def visit_DictComp(self, node):
         self.generic_visit(node)
+        if not self.values:
+            return node
         gen = ast.GeneratorExp(elt=ast.Tuple(elts=[node.key, node.value], ctx=ast.Load()), generators=node.generators)
         return ast.copy_location(ast.Call(func=ast.Name(id='__sx_dict__', ctx=ast.Load()), args=[gen], keywords=[]), node)
 
     def visit_BinOp(self, node):
         self.generic_visit(node)
-        if isinstance(node.op, ast.Mod) and isinstance(node.left, ast.Constant) and isinstance(node.left.value, (str, bytes)):
+        if self.values and isinstance(node.op, ast.Mod) and isinstance(node.left, ast.Constant) and isinstance(node.left.value, (str, bytes)):
             return ast.copy_location(ast.Call(func=ast.Name(id='__sx_fmt__', ctx=ast.Load()), args=[node.left, node.right], keywords=[]), node)
         return node
 
     def visit_Call(self, node):
         self.generic_visit(node)
+        if not self.values:
+            return node
         f = node.func
         if isinstance(f, ast.Attribute) and f.attr == 'join' and isinstance(f.value, ast.Constant) and isinstance(f.value.value, (bytes, str)):
             return ast.copy_location(ast.Call(func=ast.Name(id='__sx_join__', ctx=ast.Load()), args=[f.value] + node.args, keywords=[]), node)
@@ -203,8 +208,8 @@ def load(instrumented=True, yields=False, names=MODULES, extra_globals=None, pre
         with open(path) as f:
             src = f.read()
         tree = ast.parse(src, path)
-        if instrumented:
-            tree = Rewriter(yields=yields).visit(tree)
+        if instrumented or yields:
+            tree = Rewriter(yields=yields, values=instrumented).visit(tree)
             ast.fix_missing_locations(tree)
         code = compile(tree, path, 'exec')
         full = prefix + '.' + n
@@ -213,6 +218,8 @@ def load(instrumented=True, yields=False, names=MODULES, extra_globals=None, pre
         m.__package__ = full.rpartition('.')[0]
         if instrumented:
             m.__dict__.update(VALUE_SHIMS)
+        elif yields:
+            m.__dict__.update({'__sx_cov__': _cov, '__sx_yp__': _yp})
         if extra_globals:
             m.__dict__.update(extra_globals.get(n, {}))
         sys.modules[full] = m
